@@ -256,16 +256,14 @@ func runC03(c *Ctx) {
 		}
 		fobj := info.Defs[fr.Decl.Type.Params.List[0].Names[0]]
 		calls := 0
-		ast.Inspect(fr.Decl.Body, func(n ast.Node) bool {
-			call, ok := n.(*ast.CallExpr)
-			if !ok || identObj(info, call.Fun) != fobj {
-				return true
-			}
+		for _, site := range adapterCallbackSites(p, fr, fobj) {
+			call, info := site.Call, site.Info
+			encl := site.Frames[0].Decl
 			calls++
 			c.CallSites++
 			if len(call.Args) != 4 {
 				c.Ob("LABEL-ADAPTER", fr.ID()+"/call", call.Pos(), false, true, "callback is not invoked with four arguments")
-				return true
+				continue
 			}
 			lc, lp := l.L(info, call.Args[2]), l.L(info, call.Args[3])
 			c.Ob("LABEL-ADAPTER", fr.ID()+"/call-args", call.Pos(), lc == labCur && lp == labPrev, true,
@@ -274,7 +272,7 @@ func runC03(c *Ctx) {
 			cobj := identObj(info, call.Args[2])
 			okLookup := false
 			desc := "no comma-ok lookup defines the current element"
-			ast.Inspect(fr.Decl.Body, func(m ast.Node) bool {
+			ast.Inspect(encl.Body, func(m ast.Node) bool {
 				as, ok := m.(*ast.AssignStmt)
 				if !ok || len(as.Rhs) != 1 || len(as.Lhs) < 1 || identObj(info, as.Lhs[0]) != cobj || cobj == nil {
 					return true
@@ -291,8 +289,7 @@ func runC03(c *Ctx) {
 				return true
 			})
 			c.Ob("LABEL-ADAPTER", fr.ID()+"/lookup", call.Pos(), okLookup, true, "current element is found in the current index under the previous element's key: %s", desc)
-			return true
-		})
+		}
 		if calls == 0 {
 			c.Fail("LABEL-ADAPTER", fr.ID()+"/call", fr.Decl.Pos(), "adapter never invokes its callback")
 		}
@@ -512,14 +509,15 @@ func runC03(c *Ctx) {
 	}
 
 	// (6) tables
-	for _, name := range []string{"fieldKindToWireCompatibilityGroup", "fieldKindToWireJSONCompatibilityGroup"} {
+	wireTbl, wireJSONTbl := compatTableNames(p)
+	for ti, name := range []string{wireTbl, wireJSONTbl} {
 		cl := pkgVarLiteral(pkH, name)
 		if cl == nil {
-			c.Fail("TABLE-TOTAL", name, token.NoPos, "table not found")
+			c.Fail("TABLE-TOTAL", []string{"wire-groups", "wire-json-groups"}[ti], token.NoPos, "compatibility table not found (no map[protoreflect.Kind] literal used by the registered handler)")
 			continue
 		}
 		missing, total, ok := mapLiteralMissingKeys(pkH.TypesInfo, cl)
-		c.Ob("TABLE-TOTAL", name, cl.Pos(), ok && len(missing) == 0, true, "%d distinct protoreflect.Kind values, missing keys: %v", total, missing)
+		c.Ob("TABLE-TOTAL", []string{"wire-groups", "wire-json-groups"}[ti], cl.Pos(), ok && len(missing) == 0, true, "%s: %d distinct protoreflect.Kind values, missing keys: %v", name, total, missing)
 	}
 	c04GroupsDocumented(c)
 	c04AllNames(c)
